@@ -341,7 +341,9 @@ class FakeSnowflakeCursor:
                     cmd == "DROP SCHEMA"
                     and ident == self._conn.schema
                     # a schema of the same name in another database isn't the current schema
-                    and (transformed.this.catalog or self._conn.database) == self._conn.database
+                    # NB: with IF EXISTS sqlglot parses the schema into this, and its database into db
+                    and ((transformed.this.db if transformed.this.this else transformed.this.catalog) or self._conn.database)
+                    == self._conn.database
                 ):
                     self._conn.schema = None
                     self._conn.schema_set = False
